@@ -185,7 +185,16 @@ def run_rational(ctx, rng):
     norm = alpha[0] if sgn == -1 else alpha[n]
     A_true = np.array([a @ np.linalg.inv(norm) for a in alpha])
     B_true = np.array([b @ np.linalg.inv(norm) for b in beta])
-    tolA = 1e-8 * max(kappa, 1.0)
+    # conditioning of the least-squares step itself: how far does a 1e-15 relative perturbation of the spectrum move the coefficients?
+    try:
+        Ad_p, _ = plscf.pLSCF(Sy * (1 + 1e-15 * rng.standard_normal(Sy.shape)), dt, n, sgn_basf=sgn)
+        dprobe = float(np.max(np.abs(Ad_p[n - 1] - Ad[n - 1])) / np.max(np.abs(Ad[n - 1])))
+    except np.linalg.LinAlgError:
+        dprobe = np.inf
+    if not dprobe <= 1e-7:
+        ctx.not_judged("normal equations ill conditioned (1e-15 probe moves the coefficients by > 1e-7)")
+        return
+    tolA = max(1e-8 * max(kappa, 1.0), 1e4 * dprobe)
     errA = np.max(np.abs(Ad[n - 1] - A_true)) / np.max(np.abs(A_true))
     errB = np.max(np.abs(Bn[n - 1] - B_true)) / np.max(np.abs(B_true))
     ctx.maxi("coefficients@pLSCF: worst error / (1e-8 kappa)", max(errA, errB) / tolA)
@@ -218,7 +227,7 @@ def run_rational(ctx, rng):
         keep = lam[lam.real <= 0]
         col = Lam[:, n - 1]
         got = col[~np.isnan(col)]
-        tol = 1e-8 * kappa
+        tol = max(1e-8 * kappa, 1e4 * kappa * dprobe)
         if ctx.check(len(got) == len(keep), "truth:pole_count", lambda: f"order {n}: {len(got)} poles reported, {len(keep)} of {n*Nch} true roots are stable"):
             d = gen.multiset_dist(got, keep) if len(got) else 0.0
             ctx.maxi("poles-at-order-n: worst distance / (1e-8 kappa)", d / tol)
